@@ -34,7 +34,7 @@ def build():
     w.ghost_var('flattened', K.Seq(K.Ref('SQLResult')))
 
     w.contract(
-        'BaseEvolutionOperations._are_ops_mergeable', module=COMMON, serves=['C18'],
+        'BaseEvolutionOperations._are_ops_mergeable', module=COMMON, serves=['C18', 'C03'],
         params={'self': K.Ref('BaseEvolutionOperations'), 'op1': OP, 'op2': OP},
         returns=K.Bool, pure=True,
         requires=["'type' in op1", "'type' in op2"],
@@ -56,7 +56,7 @@ def build():
            note='class attribute holding the AlterTableSQLResult class: calling it constructs a new object')
 
     w.contract(
-        'BaseEvolutionOperations.generate_table_op_sql', module=COMMON, serves=['C18'],
+        'BaseEvolutionOperations.generate_table_op_sql', module=COMMON, serves=['C18', 'C03'],
         params={'self': K.Ref('BaseEvolutionOperations'), 'mutator': K.Ref('ModelMutator'), 'op': OP,
                 'prev_sql_result': K.Opt(K.Ref('SQLResult')), 'prev_op': K.Opt(OP)},
         returns=K.Ref('SQLResult'),
